@@ -159,6 +159,11 @@ func (e *Exec) step(st *State, in ssa.Instruction, b *ssa.BasicBlock, idx int) b
 		e.chanSend(st, x)
 	case *ssa.Range:
 		fr.env[x] = Val{T: []string{e.val(st, x.X).T[0]}, Typ: x.Type()}
+		if mt, ok := x.X.Type().Underlying().(*types.Map); ok {
+			// ghost set of keys already yielded by this iteration
+			vs := arr(e.mapKeySort(mt), SBool)
+			st.ghost["$visited"] = Val{T: []string{fmt.Sprintf("((as const %s) false)", vs)}, Typ: ghostSetT(mt)}
+		}
 	case *ssa.Next:
 		e.next(st, x)
 	default:
@@ -879,6 +884,7 @@ func (e *Exec) lookup(st *State, x *ssa.Lookup) {
 	present := tAnd(tNot(tEq(mv.T[0], "0")), e.mapPresent(st, mt, mv.T[0], k, false))
 	val := e.mapValue(st, mt, mv.T[0], k, false)
 	e.protoMapWF(st, mt, present, val)
+	e.assumeTypeWF(st, val, mt.Elem())
 	z := e.zeroVal(mt.Elem())
 	out := Val{Typ: x.Type()}
 	for i := range val.T {
@@ -922,6 +928,12 @@ func (e *Exec) mapStore(st *State, mt *types.Map, m, k string, v Val, present bo
 	st.counts["mapgen"]++
 }
 
+type ghostSet struct{ types.Type }
+
+func ghostSetT(mt *types.Map) types.Type {
+	return types.NewNamed(types.NewTypeName(0, nil, "ghostset", nil), types.NewMap(mt.Key(), types.Typ[types.Bool]), nil)
+}
+
 // protoMapWF: values of protobuf map fields are non-nil messages (the protobuf
 // runtime allocates them when unmarshalling; listed as an assumption).
 func (e *Exec) protoMapWF(st *State, mt *types.Map, present string, v Val) {
@@ -947,8 +959,20 @@ func (e *Exec) next(st *State, x *ssa.Next) {
 			kv := e.freshVal("next.k", mt.Key())
 			k := e.mapKeyTerm(mt, kv)
 			st.assume(tImp(ok, tAnd(tNot(tEq(m, "0")), e.mapPresent(st, mt, m, k, false))))
+			if vis, has := st.ghost["$visited"]; has {
+				// each key is yielded once; the iteration ends only when every key has been yielded
+				st.assume(tImp(ok, tNot(app("select", vis.T[0], k))))
+				q := e.freshName("q:k")
+				st.assume(tImp(tNot(ok), fmt.Sprintf("(forall ((%s %s)) (! (=> %s (select %s %s)) :pattern ((select %s %s))))", q, e.mapKeySort(mt),
+					tAnd(tNot(tEq(m, "0")), e.mapPresent(st, mt, m, q, false)), vis.T[0], q, vis.T[0], q)))
+				nv := e.fresh("visited", arr(e.mapKeySort(mt), SBool))
+				st.assume(tEq(nv, tIte(ok, app("store", vis.T[0], k, "true"), vis.T[0])))
+				st.ghost["$visited"] = Val{T: []string{nv}, Typ: vis.Typ}
+			}
 			vv := e.mapValue(st, mt, m, k, false)
 			e.protoMapWF(st, mt, ok, vv)
+			vv.Typ = mt.Elem()
+			e.assumeTypeWF(st, vv, mt.Elem())
 			tt := x.Type().(*types.Tuple)
 			// tuple is (ok, k, v); k or v may be typed invalid when unused
 			if len(shape(tt.At(1).Type())) == len(kv.T) {
